@@ -590,5 +590,8 @@ pub fn gen_scenario(t: &mut Tape, p: &Profile) -> Scenario {
         sniff: false,
         epoch_liveness: false,
         synth: None,
+        neighbour: None,
+        record_rx: false,
+        alone_equal: false,
     }
 }
